@@ -189,11 +189,15 @@ class PolyChordOptimizer(Optimizer):
     def get_poly_cluster_number(self, dir):
         import glob
         '''counts polychord cluster files in 'clusters' folder'''
+        import re
         cluster_list = glob.glob(os.path.join(dir, 'clusters/1-*.txt'))
         c_idx = []
         for file in cluster_list:
-            if file[-5].isdigit():
-                c_idx.append(int(file[-5]))
+            # the whole cluster number, not only its last digit
+            # (1-_10.txt is cluster 10, not cluster 0)
+            number = re.search(r'(\d+)\.txt$', os.path.basename(file))
+            if number is not None:
+                c_idx.append(int(number.group(1)))
         try:
             num = np.max(c_idx)
         except ValueError:
